@@ -10,6 +10,7 @@ import (
 	"time"
 
 	"github.com/btcsuite/btcd/btcutil"
+	"github.com/btcsuite/btcd/chaincfg"
 	"github.com/btcsuite/btcd/chaincfg/chainhash"
 	"github.com/btcsuite/btcd/wire"
 	"github.com/btcsuite/btcwallet/chain"
@@ -26,7 +27,12 @@ import (
 // (a) BranchRecoveryState through its exported methods:
 //   bnew w=<W> | bext | badd i=<n> | binv i=<n> | bfound i=<n> | bexpand inv=<i,j,..> | bst
 // (b) full recovery loop: real wallet restored from seed against a fake chain
-//   rinit seed=<k> scopes=44,49,84,86 batch=2000
+//   rinit seed=<k> scopes=44,49,84,86 batch=2000 [net=main]   net=main: wallet and backend on chaincfg.MainNetParams (a
+//                                                          production network: syncWithChain waits for the backend)
+//   rnotcurrent until=<h>                                  (net=main only) the backend is a full node still downloading the
+//                                                          chain when the wallet next connects: IsCurrent() = false and only
+//                                                          heights <= h are served until the wallet has polled IsCurrent
+//                                                          twice; then the full chain and IsCurrent() = true
 //   rblk t=<unix> txs=<id>:<in>+<in>:<out>+<out>;...      in = e | <txid>.<idx>;  out = x.<amt> | <scope>.<0|1>.<idx>.<amt>
 //   rrecover w=<W> locked=<0|1> failat=<n>                 create from seed, sync (n-th FilterBlocks call fails once)
 //   rrestart w=<W> failat=<n>                              stop, reopen, sync (recovery resumes above the wallet's tip)
@@ -148,6 +154,7 @@ type recRunner struct {
 	leases  int             // number of rlease ops so far (context tag of the oracle keys)
 	mempool int             // number of rmempool ops so far
 	pending string          // how the previous run ended if it was stopped mid-recovery (context tag of the next rrestart)
+	mainnet bool            // rinit net=main
 }
 
 // recBatch is wallet.recoveryBatchSize.
@@ -262,8 +269,16 @@ func (r *recRunner) Exec(op string) (string, string) {
 		return r.branchState(), v
 
 	case "rinit":
+		if n, ok := kv["net"]; ok && n != "main" && n != "sim" {
+			return "bad-op", ""
+		}
 		r.Close()
-		env, err := newEnv()
+		r.mainnet = kv["net"] == "main"
+		net := params
+		if r.mainnet {
+			net = &chaincfg.MainNetParams
+		}
+		env, err := newEnvNet(net)
 		if err != nil {
 			return "err env", ""
 		}
@@ -276,6 +291,13 @@ func (r *recRunner) Exec(op string) (string, string) {
 		r.txs, r.order, r.nextBlk, r.scanned, r.hypOK, r.tainted = map[int]*rTx{}, nil, 1, 0, true, false
 		r.paidMax = map[[2]int]int{}
 		r.leases, r.mempool, r.leased, r.pending = 0, 0, map[[2]int]bool{}, ""
+		return "ok", ""
+	case "rnotcurrent":
+		h, err := strconv.Atoi(kv["until"])
+		if r.env == nil || !r.mainnet || err != nil || h < 0 || int32(h) > r.env.fc.tip().height {
+			return "bad-op", ""
+		}
+		r.env.fc.armNotCurrent(int32(h))
 		return "ok", ""
 	case "rlease", "rrelease":
 		if r.env == nil || r.env.w == nil {
@@ -361,7 +383,7 @@ func (r *recRunner) Exec(op string) (string, string) {
 		}
 		r.w = uint32(atoi(kv["w"]))
 		r.env.retry = retryFor(kv)
-		if err := r.env.create(seedFor(r.seed), params.GenesisBlock.Header.Timestamp.Add(-240*time.Hour), r.w); err != nil {
+		if err := r.env.create(seedFor(r.seed), r.env.net.GenesisBlock.Header.Timestamp.Add(-240*time.Hour), r.w); err != nil {
 			return "err create", ""
 		}
 		if kv["locked"] == "0" {
@@ -547,6 +569,11 @@ func (r *recRunner) syncAndReport(kv map[string]string, ctx string) (string, str
 	fc.failHeight = 0
 	fc.mu.Unlock()
 	tip := fc.tip().height
+	catchingUp := fc.notCurrent()
+	if catchingUp {
+		// C16 quantifies over every backend the wallet may be started against: a node in initial block download
+		ctx += ".backend-catching-up"
+	}
 	// the quit flag is looked at once per height, before the block is fetched: an interruption while the last block
 	// (or a block outside the range) is fetched changes nothing
 	interrupts := lockat > r.scanned && lockat < tip
@@ -611,6 +638,13 @@ wait:
 			}
 			close(release)
 		}
+	}
+	if fc.notCurrent() {
+		// the wallet completed its start-up sync without ever waiting for the backend to become current: it is synced to
+		// what the node served, not to the chain of the script — outside this engine's ground truth
+		fc.liftNotCurrent()
+		r.tainted = true
+		return "synced-to-backend-not-current", ""
 	}
 	// ground truth bookkeeping: look-ahead hypothesis for the blocks just scanned, with the window in force
 	r.account(tip)
@@ -1127,7 +1161,54 @@ func (recEngine) Generate(rng *rand.Rand, tier string) []core.Case {
 		}
 		cases = append(cases, genInterrupted(rng, gt, 3, 2100, true, kind, i%2 == 1, i))
 	}
+	// (b-main) production-network parameters, backend still in initial block download when the wallet connects
+	// (round-3 seed C16-7): generated last; every start-up sync on MainNet costs >= 1 s (the wait's first tick)
+	mgt := chaincfg.MainNetParams.GenesisBlock.Header.Timestamp.Unix()
+	nNC := 1
+	if thorough {
+		nNC = 6
+	}
+	for c := 0; c < nNC; c++ {
+		for _, resumed := range []bool{false, true} {
+			w := ws[rng.Intn(len(ws))]
+			cases = append(cases, genNotCurrent(rng, mgt, w, 8+rng.Intn(10), resumed, c))
+		}
+	}
 	return cases
+}
+
+// genNotCurrent: a wallet on MainNet parameters is restored from seed (or restarted after the chain grew) while its
+// full-node backend is still downloading the chain: the node serves heights <= k only and reports IsCurrent() = false
+// when the wallet connects, and has the whole chain the second time it is polled.  Payments above k go to addresses
+// that are only reachable through the look-ahead.  The completeness oracle is evaluated at the end, as everywhere.
+func genNotCurrent(rng *rand.Rand, gt int64, w, nBlocks int, resumed bool, c int) core.Case {
+	tags := []string{"full-loop", fmt.Sprintf("window-%d", w), "mainnet", "backend-catching-up"}
+	ops := []string{fmt.Sprintf("rinit seed=%d scopes=44,49,84,86 batch=2000 net=main", 1+c%3)}
+	g := newChainGen(rng, gt, w, false)
+	from := 0
+	if resumed {
+		tags = append(tags, "resumed")
+		first := 1 + rng.Intn(nBlocks-3)
+		ops = append(ops, g.blocks(first)...)
+		ops = append(ops, fmt.Sprintf("rrecover w=%d locked=%d failat=0", w, rng.Intn(2)))
+		ops = append(ops, g.blocks(nBlocks-first)...)
+		from = first
+	} else {
+		ops = append(ops, g.blocks(nBlocks)...)
+	}
+	// the node's download height when the wallet connects: anywhere from the wallet's own tip to just below the tip
+	k := from + rng.Intn(nBlocks-from-1)
+	ops = append(ops, fmt.Sprintf("rnotcurrent until=%d", k))
+	if resumed {
+		ops = append(ops, fmt.Sprintf("rrestart w=%d failat=0", w))
+	} else {
+		ops = append(ops, fmt.Sprintf("rrecover w=%d locked=%d failat=0", w, rng.Intn(2)))
+	}
+	ops = append(ops, "rstate")
+	// and once more against a current backend after the chain grew
+	ops = append(ops, g.blocks(1+rng.Intn(3))...)
+	ops = append(ops, fmt.Sprintf("rrestart w=%d failat=0", w), "rstate")
+	return core.Case{Ops: ops, Tags: tags}
 }
 
 // genHidden: block 1 pays a wallet address, recovery finds the output; then the output is leased or an unmined
